@@ -266,6 +266,19 @@ def pristine_outcomes(items):
 # Hand-written programs for constructs the grammar-directed generator produces rarely or never, plus the inputs of every
 # defect that was repaired by a "fix:" commit (a fixed defect that returns is reported again).  (text, is_valid_C11)
 ZOO = [
+    # round 7: adjacent prefixed literals of every class, offsetof designators with identifier subscripts, a function's own name
+    # re-declared in its outermost block, suffixes after postfix ++, comma in the middle of ?:, member runs with mixed operators
+    ('char *a = u8"ab" u8"cd"; char *b = u8"a" u8"b" u8"c"; int *c = L"a" L"b" L"c"; short *d = u"x" u"y"; int *e = U"x" U"y" U"z"; char *f = "p" "q" "r";', True),
+    ('enum { N = 1 }; void f(void){ x = offsetof(struct S, p[N].q); y = offsetof(struct S, p[1].q[N]); z = offsetof(struct S, a.b[i][j].c); w = offsetof(struct S, m[N + 1]); }', True),
+    ('int count(int n) { typedef unsigned long count; count total = 0; return (int) total + n; }', True),
+    ('int fo(void) { int fo = 1; return fo; } int fp(int fp) { return fp; } int fq(void) { { typedef char fq; fq c = 0; return c; } }', True),
+    ('void f(struct S *p, struct S **q){ x = p++->n; y = q++[0][1].n; z = (*q)--->n; w = p->in.x + s.pin->x + p->a.b->c.d; }', True),
+    ('void f(void){ r = x ? g(y), y + 1 : 2; t = a ? b, c, d : e ? f, g : h; }', True),
+    ('static inline int sf(int a){ return a; } extern _Noreturn void die(int); inline static _Noreturn void d2(void){ for(;;); } _Noreturn static void d3(void);', True),
+    ('void f(int n){ int b = 1;; ; int c;; while (n--) ;; for (int k = n;; k--) { continue; } do continue; while (0); L: ; }', True),
+    ('void f(_Atomic(int) a, const _Atomic(struct S) s, _Atomic(int) *p, _Atomic(int) (*g)(void), int b);', True),
+    ('int len; void f(void){ typedef unsigned char len; len *p; { int len = 2; len++; } } void g(int len){ { typedef int len; len x; } }', True),
+
     # _Atomic(type-name) specifier everywhere a type can be written
     ("void f(void){ x = (_Atomic(int)) y; z = sizeof(_Atomic(int *)); w = _Alignof(_Atomic(struct S *)); }", False),
     ("void g(_Atomic(int) *, _Atomic(char) a, const _Atomic(long) * const, _Atomic(int) b[2]);", True),
